@@ -5,6 +5,7 @@ import math
 from hypothesis import strategies as st
 
 from vgv import envs, gen, model as M, objs
+from vgv import prelude
 from vgv.framework import Check, guarded
 from vgv.objs import ACTIONS, HEADINGS
 
@@ -164,6 +165,7 @@ OFF = {'overlap': 'reward_off', 'reach_exit': 'reward_off'}
 
 
 def oracle_reward(case, ctx):
+    prelude.door_first(ctx)
     s, a, spec = case['s'], case['a'], case['spec']
     n = next_of(case, ctx)
     via = bool(case['seed'] % 2)   # obtained by name through the factory, or bound directly on the registry function
@@ -248,6 +250,7 @@ def strat_comp(draw, tier):
 
 
 def oracle_comp(case, ctx):
+    prelude.door_first(ctx)
     s, a = case['s'], case['a']
     comp = {'chain': case['chain'], 'rewards': case['rewards'], 'term': case['term'], 'obs': 'fully_transparent', 'view': [1, 1], 'via_factory': bool(case['seed'] % 2)}
     env = envs.mk_env(case['space'], M.shape(s), comp, reset_state=s)
